@@ -116,6 +116,40 @@ pub fn pool(threads: usize) -> std::sync::Arc<rayon::ThreadPool> {
 }
 
 // ------------------------------------------------------------------------------------------------
+// writers: either one long-lived `Writer` per index for the whole case (as a service would keep
+// it: hidden state inside a Writer must survive commits and aborts correctly) or a fresh one per call
+
+pub struct WriterCache {
+    map: HashMap<(u16, usize, usize), Box<dyn std::any::Any>>,
+    pub long_lived: bool,
+}
+
+impl WriterCache {
+    pub fn new(long_lived: bool) -> Self {
+        WriterCache { map: HashMap::new(), long_lived }
+    }
+    pub fn get<D: Distance>(&mut self, db: RawDb, index: u16, metric: Metric, dims: usize, tmpdir: Option<&std::path::Path>) -> &Writer<D> {
+        if !self.long_lived {
+            self.map.clear();
+        }
+        self.map
+            .entry((index, metric.idx(), dims))
+            .or_insert_with(|| {
+                let mut w = Writer::<D>::new(adb::<D>(db), index, dims);
+                if let Some(t) = tmpdir {
+                    w.set_tmpdir(t);
+                }
+                Box::new(w)
+            })
+            .downcast_ref::<Writer<D>>()
+            .expect("writer type")
+    }
+    pub fn forget(&mut self, index: u16) {
+        self.map.retain(|k, _| k.0 != index);
+    }
+}
+
+// ------------------------------------------------------------------------------------------------
 // model
 
 #[derive(Clone, Debug)]
@@ -270,6 +304,8 @@ pub struct Checks {
 pub enum Values {
     Grid,
     Uniform,
+    /// uniform in [-1,1) times 10^k
+    Scaled(i32),
     AllBits,
     Degenerate(u8),
 }
@@ -386,6 +422,7 @@ pub fn gen_vec(rng: &mut StdRng, dims: usize, values: Values, pool: &[Vec<f32>])
     match values {
         Values::Grid => (0..dims).map(|_| rng.gen_range(-64i32..64) as f32 / 8.0).collect(),
         Values::Uniform => (0..dims).map(|_| rng.gen_range(-1.0f32..1.0)).collect(),
+        Values::Scaled(k) => (0..dims).map(|_| rng.gen_range(-1.0f32..1.0) * 10f32.powi(k)).collect(),
         Values::AllBits => (0..dims)
             .map(|_| {
                 if rng.gen_bool(0.4) {
@@ -659,10 +696,8 @@ pub enum BuildOutcome {
 
 pub fn run_build<D: Distance>(
     wtxn: &mut RwTxn,
-    db: RawDb,
-    m: &IndexModel,
+    writer: &Writer<D>,
     opts: &BuildOpts,
-    tmpdir: Option<&std::path::Path>,
     limit: u64,
     loop_limit: u64,
 ) -> BuildOutcome {
@@ -670,10 +705,6 @@ pub fn run_build<D: Distance>(
     {
         arroy::verif::reset_ticks();
         arroy::verif::LOOP_LIMIT.store(loop_limit, Ordering::Relaxed);
-    }
-    let mut writer = Writer::<D>::new(adb::<D>(db), m.index, m.dims);
-    if let Some(t) = tmpdir {
-        writer.set_tmpdir(t);
     }
     let polls = AtomicU64::new(0);
     let tripped = std::sync::atomic::AtomicBool::new(false);
@@ -981,6 +1012,7 @@ pub struct Engine<'p> {
     pub log: Vec<String>,
     pub prev_forest: BTreeMap<u16, RawIndex>,
     pub final_model: Option<Model>,
+    pub writers: WriterCache,
 }
 
 fn vio(step: usize, key: &str, msg: String) -> CaseEnd {
@@ -994,7 +1026,9 @@ pub fn run_case(case: &Case, p: &Profile) -> CaseReport {
 
 /// Runs a case in a caller-provided environment and also returns the model of the committed state.
 pub fn run_case_in(world: &World, case: &Case, p: &Profile) -> (CaseReport, Model) {
-    let mut e = Engine { p, c: Counters::default(), sigs: Vec::new(), log: Vec::new(), prev_forest: BTreeMap::new(), final_model: None };
+    let long_lived = case.seed & 0x100 != 0;
+    let mut e = Engine { p, c: Counters::default(), sigs: Vec::new(), log: Vec::new(), prev_forest: BTreeMap::new(), final_model: None, writers: WriterCache::new(long_lived) };
+    e.c.inc(if long_lived { "cases_with_long_lived_writers" } else { "cases_with_fresh_writers" });
     let mut steps = 0usize;
     let end = match guarded(|| e.run(world, case, &mut steps)) {
         Ok(end) => end,
@@ -1118,7 +1152,7 @@ impl Engine<'_> {
         let mut unchanged_expected = false;
         match op {
             Op::Add { id, vec, .. } => {
-                let r = with_metric!(metric, D, guarded(|| Writer::<D>::new(adb::<D>(db), index, dims).add_item(wtxn, *id, vec)));
+                let r = with_metric!(metric, D, { let w = self.writers.get::<D>(db, index, metric, dims, tmpdir); guarded(|| w.add_item(wtxn, *id, vec)) });
                 match r {
                     Ok(Ok(())) => {}
                     Ok(Err(e)) => return Some(self.own(ck.store || ck.build_must_succeed, step, "add:error", format!("{desc} failed: {e:?}"))),
@@ -1135,7 +1169,7 @@ impl Engine<'_> {
                 let last = pre.as_ref().unwrap().last().map(|(k, _)| k.clone());
                 let newk = rawdb::encode_key(index, rawdb::KIND_ITEM, *id).to_vec();
                 let must_succeed = last.map_or(true, |l| newk > l);
-                let r = with_metric!(metric, D, guarded(|| Writer::<D>::new(adb::<D>(db), index, dims).append_item(wtxn, *id, vec)));
+                let r = with_metric!(metric, D, { let w = self.writers.get::<D>(db, index, metric, dims, tmpdir); guarded(|| w.append_item(wtxn, *id, vec)) });
                 match r {
                     Err(pm) => return Some(self.own(ck.rejected || ck.store, step, "append:panic", format!("{desc} panicked: {pm}"))),
                     Ok(Ok(())) => {
@@ -1174,7 +1208,7 @@ impl Engine<'_> {
                 }
             }
             Op::Del { id, .. } => {
-                let r = with_metric!(metric, D, guarded(|| Writer::<D>::new(adb::<D>(db), index, dims).del_item(wtxn, *id)));
+                let r = with_metric!(metric, D, { let w = self.writers.get::<D>(db, index, metric, dims, tmpdir); guarded(|| w.del_item(wtxn, *id)) });
                 let m = &mut model.ix[op_ix];
                 let existed = m.items.remove(id).is_some();
                 match r {
@@ -1196,7 +1230,7 @@ impl Engine<'_> {
                 touched.push(*id);
             }
             Op::Clear { .. } => {
-                let r = with_metric!(metric, D, guarded(|| Writer::<D>::new(adb::<D>(db), index, dims).clear(wtxn)));
+                let r = with_metric!(metric, D, { let w = self.writers.get::<D>(db, index, metric, dims, tmpdir); guarded(|| w.clear(wtxn)) });
                 match r {
                     Ok(Ok(())) => {}
                     Ok(Err(e)) => return Some(self.own(ck.store, step, "clear:error", format!("{desc} failed: {e:?}"))),
@@ -1213,8 +1247,8 @@ impl Engine<'_> {
             Op::BadLen { id, len, kind, .. } => {
                 let v = vec![0.25f32; *len];
                 let r: Result<Result<(), arroy::Error>, String> = match kind {
-                    0 => with_metric!(metric, D, guarded(|| Writer::<D>::new(adb::<D>(db), index, dims).add_item(wtxn, *id, &v))),
-                    1 => with_metric!(metric, D, guarded(|| Writer::<D>::new(adb::<D>(db), index, dims).append_item(wtxn, *id, &v))),
+                    0 => with_metric!(metric, D, { let w = self.writers.get::<D>(db, index, metric, dims, tmpdir); guarded(|| w.add_item(wtxn, *id, &v)) }),
+                    1 => with_metric!(metric, D, { let w = self.writers.get::<D>(db, index, metric, dims, tmpdir); guarded(|| w.append_item(wtxn, *id, &v)) }),
                     _ => {
                         let m = &model.ix[op_ix];
                         if !(m.has_metadata && !m.dirty) {
@@ -1350,7 +1384,10 @@ impl Engine<'_> {
                 arroy::verif::chaos_arm(opts.rng_seed | 1, 35);
             }
         }
-        let out = with_metric!(metric, D, run_build::<D>(wtxn, db, &model.ix[op_ix], opts, tmpdir, limit, loop_limit));
+        let out = with_metric!(metric, D, {
+            let w = self.writers.get::<D>(db, index, metric, dims, tmpdir);
+            run_build::<D>(wtxn, w, opts, limit, loop_limit)
+        });
         #[cfg(arroy_verif)]
         {
             if ck.chaos {
